@@ -138,3 +138,28 @@ def pred_c13(case, impl, model, ctx):
             if len(raw) < 65536 and ("pkt=%08x:1" % TY[k]) not in toks:
                 return False
     return True
+
+
+def lean_bytes(b):
+    return "([" + ", ".join(str(x) for x in b) + "] : Bytes)"
+
+
+def selfcheck_bld(cases, model):
+    """a sample of builder results of the compiled driver, as kernel-checked equations"""
+    fn = {"can": "canSetData", "canfd": "canSetData", "lin": "linSetData", "eth": "ethSetData", "analog": "analogSetData"}
+    ex = []
+    for c, m in zip(cases, model):
+        k = c.meta.get("kind")
+        if k not in fn or len(ex) >= 12:
+            continue
+        for o, l in list(zip(c.ops, m))[3:40:12]:
+            w = o.split(" ")
+            if len(w) != 4 or not l.startswith("raw="):
+                continue
+            prior = DEFAULTS[k] if w[2] == "default" else unhex(w[2])
+            d = unhex(w[3])
+            if len(prior) > 70 or len(d) > 40:
+                continue
+            raw = unhex(l.split(" ")[0][4:])
+            ex.append("example : %s %s %s = %s := by decide" % (fn[k], lean_bytes(prior), lean_bytes(d), lean_bytes(raw)))
+    return ["AsamCmp.Builders"], ex[:12]
